@@ -222,11 +222,15 @@ func (c *flowCtx) localVar(v *types.Var) {
 		}
 		return isV(e)
 	}
+	// stores through the variable (v.f = x, v[k] = x) feed it only when v is a local aggregate that is being
+	// built up in this function: not for pointers (receivers, shared objects) and not for parameters.
+	_, isPtr := v.Type().Underlying().(*types.Pointer)
+	aggregate := !isPtr && !c.isParam(v)
 	ast.Inspect(c.root, func(m ast.Node) bool {
 		switch t := m.(type) {
 		case *ast.AssignStmt:
 			for i, l := range t.Lhs {
-				if isV(l) || (t.Tok == token.ASSIGN && baseIsV(l)) {
+				if isV(l) || (aggregate && t.Tok == token.ASSIGN && baseIsV(l)) {
 					if len(t.Lhs) == len(t.Rhs) {
 						c.expr(t.Rhs[i])
 					} else {
@@ -295,4 +299,25 @@ func AssignedExprs(info *types.Info, root ast.Node, v *types.Var) []ast.Expr {
 		return true
 	})
 	return out
+}
+
+func (c *flowCtx) isParam(v *types.Var) bool {
+	fd, ok := c.root.(*ast.FuncDecl)
+	if !ok {
+		return false
+	}
+	check := func(fl *ast.FieldList) bool {
+		if fl == nil {
+			return false
+		}
+		for _, f := range fl.List {
+			for _, nm := range f.Names {
+				if c.info.Defs[nm] == v {
+					return true
+				}
+			}
+		}
+		return false
+	}
+	return check(fd.Recv) || check(fd.Type.Params)
 }
